@@ -122,7 +122,7 @@ func newContractSet() *ContractSet {
 	return &ContractSet{Contracts: map[string]*Contract{}, Specs: map[string]*SpecFn{}, Ghosts: map[string]*GhostDecl{}, ObjInvs: map[string][]*ObjInv{}, Guarded: map[string]string{}}
 }
 
-var clauseRe = regexp.MustCompile(`^(requires|domain|ensures|modifies|let|cover|assert|invariant|exits|decreases|ghostupdate)(\[[^\]]*\])?\s+(.*)$`)
+var clauseRe = regexp.MustCompile(`^(requires|domain|split|ensures|modifies|let|cover|assert|invariant|exits|decreases|ghostupdate)(\[[^\]]*\])?\s+(.*)$`)
 
 func splitProps(s string) []string {
 	var out []string
